@@ -12,7 +12,8 @@ EXTENDS Integers, Sequences, FiniteSets, TLC, SequencesExt
 
 CONSTANTS Clients, Agents, Lst, MaxOps
 
-BadKinds == {"wrongDigest", "unknownUser", "notJSON", "noPassword", "passwordNotString", "noInfo", "wrongEvent", "wrongSubEvent", "clearPassword"}
+BadKinds == {"wrongDigest", "unknownUser", "notJSON", "noPassword", "passwordNotString", "noInfo", "wrongEvent", "wrongSubEvent", "clearPassword",
+             "impersonate"}     \* names an operator who is logged in on another socket, with a wrong digest
 Kinds == {"good", "extraFields"} \cup BadKinds      \* extra fields do not matter
 
 VARIABLES phase,    \* [Clients -> {"absent","conn","authed","closed","gone"}]
@@ -58,6 +59,19 @@ Auth(c, kind) ==   \* first message on the socket
             /\ phase' = [phase EXCEPT ![c] = "closed"]
             /\ UNCHANGED events
     /\ UNCHANGED <<live, lsn, n>> /\ Done("Auth") /\ Log("Auth", c, kind)
+
+(* a correct first message whose replay is overtaken by a chat line recorded while the replay is under way
+   (after its first frame): the newcomer still gets every retained event and the new line exactly once *)
+AuthRace(c) ==
+    /\ phase[c] = "conn"
+    /\ LET ev == Append(events, Lab("user:", c))
+           line == Lab("chat", Num(n)) IN
+       /\ events' = Append(ev, line)
+       /\ recv' = [d \in Clients |-> IF d = c THEN recv[c] \o <<"authok", ev[1], line>> \o SubSeq(ev, 2, Len(ev)) \o SessLabels
+                                    ELSE IF d \in Authed THEN recv[d] \o <<Lab("user:", c), line>> ELSE recv[d]]
+    /\ phase' = [phase EXCEPT ![c] = "authed"]
+    /\ n' = n + 1
+    /\ UNCHANGED <<live, lsn>> /\ Done("AuthRace") /\ Log4("AuthRace", c, "", Num(n))
 
 FollowUp(c) ==     \* anything sent after a refused handshake: no effect at all
     /\ phase[c] = "closed"
@@ -122,7 +136,7 @@ CutChat(c, d) ==
     /\ UNCHANGED <<live, lsn>> /\ Done("CutChat") /\ Log4("CutChat", c, d, Num(n))
 
 Next == /\ Len(hist) < MaxOps
-        /\ \/ \E c \in Clients : Connect(c) \/ FollowUp(c) \/ Chat(c) \/ Close(c)
+        /\ \/ \E c \in Clients : Connect(c) \/ FollowUp(c) \/ Chat(c) \/ Close(c) \/ AuthRace(c)
            \/ \E c \in Clients, k \in Kinds : Auth(c, k)
            \/ \E a \in Agents : Beacon(a) \/ Register(a)
            \/ \E l \in Lst : AddLsn(l)
